@@ -97,10 +97,10 @@ Qed.
 Print Assumptions C18_fake_witness_sizes.
 
 (* the executable statement used by the check accepts what the model builds *)
-Theorem C18_judge_accepts_model : forall (tb : attr_table) (t : tx_ops),
+Theorem C18_judge_accepts_model : forall (hr : hash_rank) (tb : attr_table) (t : tx_ops),
   wits_match t = true -> all_consistent t = true -> collateral_plain t = true -> no_mixed_supply t = true ->
   known_genesis t = false ->
-  judge t {| o_predicted := predicted_sig_bytes tb t; o_signed := signed_sig_bytes tb t; o_emitted := model_emitted t |} = Holds.
+  judge_hr hr t {| o_predicted := predicted_sig_bytes tb t; o_signed := signed_sig_bytes tb t; o_emitted := model_emitted_hr hr t |} = Holds.
 Proof. exact judge_accepts_model. Qed.
 Print Assumptions C18_judge_accepts_model.
 
@@ -145,7 +145,8 @@ Definition sample : tx_ops :=
      t_withdrawals := [(CK 1, None); (CS 1001, Some (SWPlutus {| pw_script := PSRef 111 1001 (Some [6]); pw_datum := None; pw_red := 0 |}))];
      t_votes := [({| v_kind := 1; v_cred := CK 5 |}, None)];
      t_proposals := [{| p_id := 0; p_scripted := false; p_wit := None |}];
-     t_mint := [MNative (NSRef 103 3 (Some [7]))];
+     t_mint := [{| mo_wit := MNative (NSRef 103 3 (Some [7])); mo_asset := 0; mo_amount := 5%Z |};
+                {| mo_wit := MNative (NSRef 103 3 (Some [7])); mo_asset := 1; mo_amount := (-2)%Z |}];
      t_required_signers := [1; 8]; t_reference_inputs := [120; 3]; t_extra_datums := [0; 2];
      t_dedup_explicit_refs := true |}.
 Example premises_satisfiable :
